@@ -252,7 +252,38 @@ theorem window_second_indel_left (f14 : Bool) (R query : Seq) (pos : Nat) (ref a
       rw [e]; exact hq)
   refine ⟨m1, m2, ?_⟩
   rw [hqp]
-  have e : qLen A + refLen W1a + uq.length + l0 = qLen A + refLen W1a + uq.length + l0 := rfl
   rw [hw]
+
+/-! ## the hypotheses are satisfiable; shape of the conclusion on concrete cases -/
+
+private def Rex : Seq := ['A', 'C', 'G', 'T', 'A', 'C', 'G', 'T', 'A', 'C', 'G', 'T', 'A', 'C', 'G', 'T', 'A', 'C', 'G', 'T', 'A', 'C', 'G', 'T', 'A', 'C', 'G', 'T', 'A', 'C', 'G', 'T']
+private def qDel : Seq := ['G', 'T', 'A', 'C', 'G', 'T', 'G', 'T', 'A', 'C', 'T', 'T', 'A', 'C', 'G', 'T', 'A', 'C', 'G', 'T']
+private def qIns : Seq := ['G', 'T', 'A', 'C', 'G', 'T', 'A', 'A', 'A', 'C', 'G', 'T', 'C', 'C', 'G', 'T', 'A', 'C', 'G', 'T', 'A', 'C']
+
+/-- reference `(ACGT)^8`, read at 2 with `6M2D3M5M6M`, SNV `G>T` at 14 (offset 1 of the `5M`), overhang 7: all the
+hypotheses of `window_second_indel_left` hold (second DELETION in the left half) -/
+example : True := by
+  have := window_second_indel_left false Rex qDel 14 ['G'] ['T'] [] [['T']] [] [(0, 6)] [(0, 3)] [(0, 6)] [] 0 5 1 2 2 2 7 4
+    (by decide) (by decide) (by decide) (by decide) (Or.inl rfl) (by decide) (Or.inl (by decide)) (by decide) (by decide)
+    (by decide) (by decide) (Or.inl (by decide)) (Or.inl (by decide)) (by decide)
+  trivial
+
+/-- the same case evaluated: `m1 = 1`, `m2 = 7`; query `T · · GTAC · T · TACGTAC`, padded `T · AC · GTAC · x · TACGTAC` -/
+example : (window false ⟨14, ['G'], [['T']]⟩ qDel [(0, 6), (2, 2), (0, 3), (0, 5), (0, 6)] 3 1 10 Rex 7).toOption =
+    some ⟨['T', 'G', 'T', 'A', 'C', 'T', 'T', 'A', 'C', 'G', 'T', 'A', 'C'],
+         [['T', 'A', 'C', 'G', 'T', 'A', 'C', 'G', 'T', 'A', 'C', 'G', 'T', 'A', 'C'], ['T', 'A', 'C', 'G', 'T', 'A', 'C', 'T', 'T', 'A', 'C', 'G', 'T', 'A', 'C']]⟩ := by decide
+
+/-- read at 2 with `6M2I3M5M6M` (inserted `AA`), SNV `A>C` at 12, overhang 7: all the hypotheses hold (second INSERTION
+in the left half) -/
+example : True := by
+  have := window_second_indel_left false Rex qIns 12 ['A'] ['C'] ['A', 'A'] [['C']] [] [(0, 6)] [(0, 3)] [(0, 6)] [] 0 5 1 1 2 2 7 4
+    (by decide) (by decide) (by decide) (by decide) (Or.inr rfl) (by decide) (Or.inl (by decide)) (by decide) (by decide)
+    (by decide) (by decide) (Or.inl (by decide)) (Or.inl (by decide)) (by decide)
+  trivial
+
+/-- the same case evaluated: `m1 = 3`, `m2 = 7`; query `CGT · AA · ACGT · C · CGTACGT`, padded `CGT · · ACGT · x · CGTACGT` -/
+example : (window false ⟨12, ['A'], [['C']]⟩ qIns [(0, 6), (1, 2), (0, 3), (0, 5), (0, 6)] 3 1 12 Rex 7).toOption =
+    some ⟨['C', 'G', 'T', 'A', 'A', 'A', 'C', 'G', 'T', 'C', 'C', 'G', 'T', 'A', 'C', 'G', 'T'],
+         [['C', 'G', 'T', 'A', 'C', 'G', 'T', 'A', 'C', 'G', 'T', 'A', 'C', 'G', 'T'], ['C', 'G', 'T', 'A', 'C', 'G', 'T', 'C', 'C', 'G', 'T', 'A', 'C', 'G', 'T']]⟩ := by decide
 
 end WhVerif.C06
